@@ -344,9 +344,10 @@ func vsS4() {
 		b1.IncrBy(1)
 	}
 	if mode == vManual {
+		// bar 1 never finishes on its own: it has stopped exactly when the container was cancelled
 		select {
 		case e.refresh <- nil:
-		case <-e.p.done:
+		case <-vBarDone(b1):
 		}
 	}
 	if at == 3 {
@@ -409,10 +410,12 @@ func vsS5() {
 		b1.IncrBy(1)
 	}
 	if mode == vManual {
+		// the bars never finish on their own: bar 0 has stopped exactly when the render error cancelled everything
+		stopped := vBarDone(b0)
 		for i := 0; i < 3; i++ {
 			select {
 			case e.refresh <- nil:
-			case <-e.p.done:
+			case <-stopped:
 			}
 		}
 		e.cancel()
@@ -887,21 +890,6 @@ func vsS13() {
 		e.cycle()
 	}
 	e.vFinish("S13", bars...)
-}
-
-// ---- queue length: WithQueueLen is honoured (C05: "any number of bars relative to the queue length")
-func vsQueueLen() {
-	q := vParam("queueLen")
-	e := vNewContainer(vManual, q)
-	got := -1
-	done := make(chan struct{})
-	e.p.operateState <- func(s *pState) {
-		got = cap(s.hm.req)
-		close(done)
-	}
-	<-done
-	vAssert(got == q, "Q.heap-manager-queue-has-the-configured-length")
-	e.vFinish("Q")
 }
 
 // ---- S14: getters and mutators from a second goroutine that is not ordered with the bar's completion and
